@@ -245,14 +245,16 @@ def forwarding():
                 '%s::SeedableRng@%s::from_rng' % (mod, W): ('{ %s(%s::<%s>::from_rng(rng)) }' % (W, blk, core), 'C09'),
                 '%s::SeedableRng@%s::try_from_rng' % (mod, W): ('{ %s::<%s>::try_from_rng(rng).map(%s) }' % (blk, core, W), 'C09'),
             }
+            # derived Clone of the newtype: clones the wrapped BlockRng (core, buffer, read position - rand_core's derive)
+            exp['%s::Clone@%s::clone' % (mod, W)] = ('{ %s(::core::clone::Clone::clone(&self.0)) }' % W, 'C10')
             if has_u64:
                 exp['%s::SeedableRng@%s::seed_from_u64' % (mod, W)] = ('{ %s(%s::<%s>::seed_from_u64(seed)) }' % (W, blk, core), 'C09')
             # no further methods in these two impls (an added override is new code)
-            for tr in ('RngCore', 'SeedableRng'):
+            for tr in ('RngCore', 'SeedableRng', 'Clone'):
                 pre = '%s::%s@%s::' % (mod, tr, W)
                 for q in cr.order:
                     if q.startswith(pre) and cr.index[q].kind == 'fn' and q not in exp and q.count('::') == pre.count('::'):
-                        exp[q] = (None, 'C05 ' + cprop if tr == 'RngCore' else 'C09')
+                        exp[q] = (None, 'C05 ' + cprop if tr == 'RngCore' else 'C10' if tr == 'Clone' else 'C09')
             for path, (want, props) in exp.items():
                 oid = 'forward:%s::%s' % (crate, path)
                 if path not in cr.index:
